@@ -30,11 +30,16 @@
 (* (Character::Unicode(_) < Character::Symbol(_)).                         *)
 (*                                                                         *)
 (* A case c is a record                                                    *)
-(*   enc    "Unicode" | "Symbol" | "AppleRoman"  encoding of the selected  *)
-(*          source subtable                                                *)
+(*   enc    "Unicode" | "Symbol" | "AppleRoman" | "Big5"  encoding of the  *)
+(*          selected source subtable                                       *)
 (*   first  OS/2.usFirstCharIndex of the source (32 when there is none)    *)
 (*   sm     the source subtable as the sequence of <<code, glyph>> pairs   *)
-(*          in the order mappings_fn enumerates them (ascending code)      *)
+(*          in the order mappings_fn enumerates them (ascending code);     *)
+(*          for a source given as a TABLE t of module Cmap (any format:    *)
+(*          0, 2, 4, 6, 10, 12) it is EnumSeq(t) - every code the table     *)
+(*          lists with the glyph the table's LOOKUP gives it (a hole, i.e.  *)
+(*          a glyphIndexArray / glyphIdArray entry 0, is glyph 0 whatever   *)
+(*          idDelta says), Cmap!EnumerateEqualsLookups                      *)
 (*   ids    the glyph id list handed to subset (starts with 0, no dups)    *)
 (*   target "Unrestricted" | "MacRoman"                                    *)
 (***************************************************************************)
@@ -65,11 +70,49 @@ IsMac(x)    == ~IsSym(x) /\ x \in MacDefinite
 ---------------------------------------------------------------------------
 \* MappingsToKeep::new
 
+\* Big5: the <<code, character>> pairs this specification knows - Cmap!Big5Sample, the first six hanzi of the
+\* level 1 block (0xA440 .. 0xA445: U+4E00 U+4E59 U+4E01 U+4E03 U+4E43 U+4E5D) and ASCII.  Sources and probes of
+\* the Big5 families stay inside them.
+Big5Known == Big5Sample \cup {<<42049, 20057>>, <<42050, 19969>>, <<42051, 19971>>, <<42052, 20035>>, <<42053, 20061>>}
+                        \cup {<<b, b>> : b \in 32 .. 126}
+Big5KnownChars == {p[2] : p \in Big5Known}
+Big5ToUni(code) == IF \E p \in Big5Known : p[1] = code THEN (CHOOSE p \in Big5Known : p[1] = code)[2] ELSE NoChar
+UniToBig5Known(ch) == IF ch \in Big5KnownChars THEN (CHOOSE p \in Big5Known : p[2] = ch)[1] ELSE NoCode
+
 \* Character::new(ch, encoding)
 CharNew(code, enc) ==
   CASE enc = "Unicode"    -> IF IsScalar(code) THEN code ELSE NoChar
     [] enc = "Symbol"     -> SYM + code
     [] enc = "AppleRoman" -> MacToUni(code % 256)
+    [] enc = "Big5"       -> Big5ToUni(code)
+
+---------------------------------------------------------------------------
+\* CmapSubtable::mappings_fn: the codes a table lists, in the order of the callbacks, each with the glyph the
+\* table's lookup gives it.  Formats 0 / 4 / 6 / 10 / 12: ascending codes (sorted segments / groups).  Format 2:
+\* high byte by high byte; a byte whose subHeaderKey is 0 is a single-byte code (listed when sub-header 0 covers
+\* it), any other byte leads the entryCount two-byte codes of its sub-header.
+\* the codes one high byte contributes
+Enum2Byte(t, hb) ==
+  LET k == SubIdx(t, hb) IN
+  IF k >= Len(t.subs) THEN <<>>
+  ELSE LET sh == t.subs[k + 1] IN
+       IF k = 0 THEN (IF hb >= sh.first /\ hb < sh.first + sh.count THEN <<hb>> ELSE <<>>)
+       ELSE [q \in 1 .. sh.count |-> hb * 256 + sh.first + q - 1]
+\* bytes lo .. hi in ascending order (halving keeps the recursion shallow)
+RECURSIVE Enum2Range(_, _, _)
+Enum2Range(t, lo, hi) ==
+  IF lo = hi THEN Enum2Byte(t, lo)
+  ELSE LET mid == (lo + hi) \div 2 IN Enum2Range(t, lo, mid) \o Enum2Range(t, mid + 1, hi)
+EnumCodes(t) == IF t.fmt = 2 THEN Enum2Range(t, 0, 255) ELSE SetToSortSeq(Covered(t), LAMBDA a, b : a < b)
+EnumSeq(t) == LET cs == TLCEval(EnumCodes(t)) IN TLCEval([n \in 1 .. Len(cs) |-> <<cs[n], Map(t, cs[n])>>])
+\* a source table this module generates is structurally sound: no listed code is BAD, every format 2 window stays
+\* inside a byte, and what is enumerated is what the lookups say
+SoundSource(t) ==
+  /\ \A i \in 1 .. Len(EnumSeq(t)) : EnumSeq(t)[i][2] \in 0 .. 65535
+  /\ t.fmt = 2 => /\ Len(t.keys) = 256
+                  /\ \A b \in 0 .. 255 : SubIdx(t, b) < Len(t.subs) /\ t.keys[b + 1] % 8 = 0
+                  /\ \A k \in 1 .. Len(t.subs) : t.subs[k].first + t.subs[k].count <= 256
+  /\ ToSet(EnumCodes(t)) = Covered(t)
 
 \* legacy_symbol_char_code_to_unicode(ch, first)
 SymToUni(code, first) ==
@@ -272,6 +315,7 @@ SrcCodeV(c, x, v) ==
                                THEN (IF IsSym(x) THEN NoCode ELSE SymbolCode(x, c.first))
                                ELSE (IF IsSym(x) THEN Val(x) ELSE NoCode)
     [] c.enc = "AppleRoman" -> MacCode(x, v)
+    [] c.enc = "Big5"       -> IF IsSym(x) THEN NoCode ELSE UniToBig5Known(x)
 SrcGlyphOfCode(sm, code) ==
   LET S == {i \in 1 .. Len(sm) : sm[i][1] = code} IN IF S = {} THEN 0 ELSE sm[Max(S)][2]
 SrcGlyphV(c, x, v) == LET code == SrcCodeV(c, x, v) IN IF code = NoCode THEN 0 ELSE SrcGlyphOfCode(c.sm, code)
